@@ -307,11 +307,11 @@ impl<'a> Analyzer<'a> {
   }
 
   fn after_step(&mut self, st: &Step) {
-    if let Outcome::Panicked(_) = st.outcome {
+    if let Outcome::Panicked(_) | Outcome::Partial(_, _) = st.outcome {
       self.post_abort = true;
       self.mixed = true;
     }
-    if let Event::TopDown(_) = st.pev.ev {
+    if let Event::TopDown(_) | Event::TopDownKeep(_) = st.pev.ev {
       if self.dirty != 0 { self.mixed = true; }
     }
     if self.all_consistent(&st.post_cells, &st.post_fail) {
@@ -369,6 +369,19 @@ impl<'a> Analyzer<'a> {
       Ev::T(t) => self.on_tracker(s, t),
       Ev::RootReq(t) => { self.sh[*t as usize].known = true; }
       Ev::RootRet(..) => {}
+      Ev::RootAbort(t, msg, file, line) => {
+        // a require of a kept session aborted (the panic was caught around this one require)
+        let p = crate::runner::PanicInfo { msg: msg.clone(), file: file.clone(), line: *line };
+        let roots: Vec<Tid> = match &s.step.pev.ev { Event::TopDownKeep(r) => r.clone(), _ => vec![*t] };
+        let was_post_abort = self.post_abort;
+        let st = s.step;
+        self.handle_abort(s, st, &p, &roots, was_post_abort);
+        // the build is over; the session (its `consistent` set) lives on
+        s.exec_stack.clear(); s.frames.clear(); s.call.clear(); s.win.clear(); s.obligation = None; s.in_bu = false;
+        s.last_check = None; s.sched_ctx = SchedCtx::None;
+        self.post_abort = true;
+        self.mixed = true;
+      }
       Ev::BottomUpStart => {
         s.in_bu = true;
         if !s.bu_seen { self.bu_snapshot = Some((self.sh.clone(), s.cells, s.fail)); }
@@ -873,7 +886,7 @@ impl<'a> Analyzer<'a> {
 
   fn end_of_step(&mut self, s: &mut Session, st: &Step, pre_dirty: u8, pre_mixed: bool, pre_post_abort: bool, pre_sh: &[Shadow]) {
     let roots: Vec<Tid> = match &st.pev.ev {
-      Event::TopDown(r) => r.clone(),
+      Event::TopDown(r) | Event::TopDownKeep(r) => r.clone(),
       Event::BottomUp { pre, then, .. } => pre.iter().chain(then.iter()).copied().collect(),
       _ => Vec::new(),
     };
@@ -937,90 +950,101 @@ impl<'a> Analyzer<'a> {
         self.check_store_vs_shadow(s, st);
       }
       Outcome::Panicked(p) => {
-        let kind = panic_kind(p);
-        let diagnosed = matches!(kind, PanicKind::Hidden | PanicKind::Overlap | PanicKind::Cycle);
-        let site = match s.call.last() {
-          Some(CallRec::Read(..)) => "hidden-read",
-          Some(CallRec::Write(..)) => if kind == PanicKind::Overlap { "overlap" } else { "hidden-write" },
-          Some(CallRec::Req(..)) => "cycle",
-          None => "none",
-        };
-        match kind {
-          PanicKind::Recursion => {
-            self.add(s, &[Prop::C07], "unbounded-recursion", "", "the recursion bound of the harness was hit: a cycle was not diagnosed".to_string());
-          }
-          PanicKind::Internal => {
-            // After an earlier abort this is C19's concern only; in a history without aborts no property expects it.
-            let props: &[Prop] = if pre_post_abort { &[Prop::C19] } else { &[Prop::C19, Prop::C18, Prop::C20, Prop::C01] };
-            self.add(s, props, "internal-panic", "",
-              format!("build failed with an internal error: {} ({}:{})", p.msg, p.file, p.line));
-          }
-          _ => {}
-        }
-        let ob = s.obligation.take();
-        // Does a conflict of the reported kind exist over the recorded (shadow) edges, stale ones included?
-        // `doomed`: tasks whose validation is in progress and has ALREADY found an inconsistent dependency: a correct
-        // implementation stops validating them at that point and drops their edges before anything else executes, so
-        // their recorded edges can no longer justify an abort (not even as the recorded stale-edge finding).
-        let mut doomed: u32 = 0;
-        for f in &s.frames {
-          if let Frame::Validate { task, inconsistent: true, had_output: true, .. } = f { doomed |= bit(*task); }
-        }
-        let (conflict_recorded, conflict_not_doomed) = match s.call.last() {
-          Some(CallRec::Read(c, r)) => {
-            let reach = self.reach(*c);
-            let ws: Vec<Tid> = self.writers_of(*r).into_iter().filter(|w| *w != *c && reach & bit(*w) == 0).collect();
-            (kind == PanicKind::Hidden && !ws.is_empty(), ws.iter().any(|w| doomed & bit(*w) == 0))
-          }
-          Some(CallRec::Write(c, r, _)) => {
-            if kind == PanicKind::Overlap {
-              let ws: Vec<Tid> = self.writers_of(*r).into_iter().filter(|w| *w != *c).collect();
-              (!ws.is_empty(), ws.iter().any(|w| doomed & bit(*w) == 0))
-            } else {
-              let xs: Vec<Tid> = self.readers_of(*r).into_iter().filter(|x| *x != *c && self.reach(*x) & bit(*c) == 0).collect();
-              (kind == PanicKind::Hidden && !xs.is_empty(), xs.iter().any(|x| doomed & bit(*x) == 0))
-            }
-          }
-          Some(CallRec::Req(c, u)) => {
-            let any = *c == *u || self.reach(*u) & bit(*c) != 0 || s.exec_stack.contains(u);
-            let without_doomed = *c == *u || (doomed & bit(*u) == 0 && self.reach_excluding(*u, doomed) & bit(*c) != 0) || s.exec_stack.contains(u);
-            (kind == PanicKind::Cycle && any, without_doomed)
-          }
-          None => (false, false),
-        };
-        if let Some(ob) = &ob {
-          // A different diagnosis is accepted when a conflict of that kind is recorded as well (coexisting
-          // conflicts, possibly a stale one: pie tests overlap before hidden dependencies; staleness is C20's).
-          if diagnosed && !ob.kinds.contains(&kind) && !conflict_recorded {
-            let mut props = Vec::new();
-            if ob.hidden { props.push(Prop::C05); }
-            if ob.overlap { props.push(Prop::C06); }
-            if ob.cycle { props.push(Prop::C07); }
-            self.add(s, &props, "wrong-diagnosis", "", format!("{}; the build aborted with '{}'", ob.what, p.msg));
-          }
-        }
-        if diagnosed {
-          // C20: the abort must be justified by a violation that exists now.
-          let justified_by_current = ob.as_ref().map(|o| o.kinds.contains(&kind)).unwrap_or(false);
-          let mut tasks = self.known_tasks();
-          for r in &roots { if !tasks.contains(r) { tasks.push(*r); } }
-          tasks.sort();
-          let scratch = m1::scratch_flags(self.prog, &st.pre_cells, &tasks);
-          let justified = justified_by_current || scratch.any_violation();
-          if !justified {
-            // Stale-edge finding? The conflict must exist over the recorded (shadow) edges.
-            let conflict = conflict_recorded;
-            let key = if conflict && conflict_not_doomed { format!("C20/stale-edge/{}", site) } else { String::new() };
-            self.add(s, &[Prop::C20, Prop::C19], "unjustified-abort", &key,
-              format!("build aborted with '{}' (site {}), but a from-scratch build of all known tasks {:?} in cells {:?} has no cycle, hidden dependency or overlapping write; conflict over recorded edges: {}; a conflicting edge belongs to a task not already known to be inconsistent: {}",
-                p.msg, site, tasks, &st.pre_cells[..self.prog.n_res as usize], conflict, conflict_not_doomed));
-          }
-        }
-        let _ = (pre_mixed, pre_post_abort);
-        // Tasks that were executing keep their partial dependency lists and no output.
+        self.handle_abort(s, st, p, &roots, pre_post_abort);
+        let _ = pre_mixed;
+      }
+      Outcome::Partial(_, _) => {
+        // every abort of the session was judged where it happened (Ev::RootAbort); the surviving requires are not
+        // compared with a from-scratch build (the session contains an aborted build)
+        s.obligation = None;
       }
       Outcome::Applied => {}
     }
+  }
+
+  /// Judges one aborted build (the session's, or one require of a session that is kept after a caught panic).
+  fn handle_abort(&mut self, s: &mut Session, st: &Step, p: &crate::runner::PanicInfo, roots: &[Tid], pre_post_abort: bool) {
+      let kind = panic_kind(p);
+      let diagnosed = matches!(kind, PanicKind::Hidden | PanicKind::Overlap | PanicKind::Cycle);
+      let site = match s.call.last() {
+        Some(CallRec::Read(..)) => "hidden-read",
+        Some(CallRec::Write(..)) => if kind == PanicKind::Overlap { "overlap" } else { "hidden-write" },
+        Some(CallRec::Req(..)) => "cycle",
+        None => "none",
+      };
+      match kind {
+        PanicKind::Recursion => {
+          self.add(s, &[Prop::C07], "unbounded-recursion", "", "the recursion bound of the harness was hit: a cycle was not diagnosed".to_string());
+        }
+        PanicKind::Internal => {
+          // After an earlier abort this is C19's concern only; in a history without aborts no property expects it.
+          let props: &[Prop] = if pre_post_abort { &[Prop::C19] } else { &[Prop::C19, Prop::C18, Prop::C20, Prop::C01] };
+          self.add(s, props, "internal-panic", "",
+            format!("build failed with an internal error: {} ({}:{})", p.msg, p.file, p.line));
+        }
+        _ => {}
+      }
+      let ob = s.obligation.take();
+      // Does a conflict of the reported kind exist over the recorded (shadow) edges, stale ones included?
+      // `doomed`: tasks whose validation is in progress and has ALREADY found an inconsistent dependency: a correct
+      // implementation stops validating them at that point and drops their edges before anything else executes, so
+      // their recorded edges can no longer justify an abort (not even as the recorded stale-edge finding).
+      let mut doomed: u32 = 0;
+      for f in &s.frames {
+        if let Frame::Validate { task, inconsistent: true, had_output: true, .. } = f { doomed |= bit(*task); }
+      }
+      let (conflict_recorded, conflict_not_doomed) = match s.call.last() {
+        Some(CallRec::Read(c, r)) => {
+          let reach = self.reach(*c);
+          let ws: Vec<Tid> = self.writers_of(*r).into_iter().filter(|w| *w != *c && reach & bit(*w) == 0).collect();
+          (kind == PanicKind::Hidden && !ws.is_empty(), ws.iter().any(|w| doomed & bit(*w) == 0))
+        }
+        Some(CallRec::Write(c, r, _)) => {
+          if kind == PanicKind::Overlap {
+            let ws: Vec<Tid> = self.writers_of(*r).into_iter().filter(|w| *w != *c).collect();
+            (!ws.is_empty(), ws.iter().any(|w| doomed & bit(*w) == 0))
+          } else {
+            let xs: Vec<Tid> = self.readers_of(*r).into_iter().filter(|x| *x != *c && self.reach(*x) & bit(*c) == 0).collect();
+            (kind == PanicKind::Hidden && !xs.is_empty(), xs.iter().any(|x| doomed & bit(*x) == 0))
+          }
+        }
+        Some(CallRec::Req(c, u)) => {
+          let any = *c == *u || self.reach(*u) & bit(*c) != 0 || s.exec_stack.contains(u);
+          let without_doomed = *c == *u || (doomed & bit(*u) == 0 && self.reach_excluding(*u, doomed) & bit(*c) != 0) || s.exec_stack.contains(u);
+          (kind == PanicKind::Cycle && any, without_doomed)
+        }
+        None => (false, false),
+      };
+      if let Some(ob) = &ob {
+        // A different diagnosis is accepted when a conflict of that kind is recorded as well (coexisting
+        // conflicts, possibly a stale one: pie tests overlap before hidden dependencies; staleness is C20's).
+        if diagnosed && !ob.kinds.contains(&kind) && !conflict_recorded {
+          let mut props = Vec::new();
+          if ob.hidden { props.push(Prop::C05); }
+          if ob.overlap { props.push(Prop::C06); }
+          if ob.cycle { props.push(Prop::C07); }
+          self.add(s, &props, "wrong-diagnosis", "", format!("{}; the build aborted with '{}'", ob.what, p.msg));
+        }
+      }
+      if diagnosed {
+        // C20: the abort must be justified by a violation that exists now.
+        let justified_by_current = ob.as_ref().map(|o| o.kinds.contains(&kind)).unwrap_or(false);
+        let mut tasks = self.known_tasks();
+        for r in roots { if !tasks.contains(r) { tasks.push(*r); } }
+        tasks.sort();
+        let scratch = m1::scratch_flags(self.prog, &st.pre_cells, &tasks);
+        let justified = justified_by_current || scratch.any_violation();
+        if !justified {
+          // Stale-edge finding? The conflict must exist over the recorded (shadow) edges.
+          let conflict = conflict_recorded;
+          let key = if conflict && conflict_not_doomed { format!("C20/stale-edge/{}", site) } else { String::new() };
+          self.add(s, &[Prop::C20, Prop::C19], "unjustified-abort", &key,
+            format!("build aborted with '{}' (site {}), but a from-scratch build of all known tasks {:?} in cells {:?} has no cycle, hidden dependency or overlapping write; conflict over recorded edges: {}; a conflicting edge belongs to a task not already known to be inconsistent: {}",
+              p.msg, site, tasks, &st.pre_cells[..self.prog.n_res as usize], conflict, conflict_not_doomed));
+        }
+      }
+      // Tasks that were executing keep their partial dependency lists and no output.
+    
   }
 
   fn writers_in(&self, sh: &[Shadow], r: Rid) -> Vec<Tid> {
